@@ -4,7 +4,8 @@
 # runs the property's quick check (and any extra checks) against a scratch copy of /repo with the change applied, and
 # stores patch + demo + meta.json under seeded/<ID>-<k>/.
 id="$1"; k="$2"; shift 2
-src=/tmp/wt/out/$id/$k; wt=/tmp/wt/$id
+# env SRC: directory of the sub-agent deliverables (default /tmp/wt/out); env NAME: number used in seeded/<ID>-<NAME>
+src=${SRC:-/tmp/wt/out}/$id/$k; wt=/tmp/wt/$id; name=${NAME:-$k}
 [ -f "$src/patch.diff" ] || { echo "$id/$k: no patch"; exit 1; }
 cd "$wt" && git checkout -q -- . && git apply "$src/patch.diff" || { echo "$id/$k: patch does not apply in its worktree"; exit 1; }
 tests=$(PYTHONPATH=$wt/lib /venv/bin/python -m pytest -q -p no:cacheprovider 2>&1 | tail -1)
@@ -12,7 +13,7 @@ PYTHONPATH=$wt/lib timeout 300 /venv/bin/python "$src/demo.py" >/dev/null 2>&1; 
 git checkout -q -- .
 PYTHONPATH=$wt/lib timeout 300 /venv/bin/python "$src/demo.py" >/dev/null 2>&1; without=$?
 cd /verif
-out=seeded/$id-$k; mkdir -p "$out"; cp "$src/patch.diff" "$src/demo.py" "$out/"; [ -f "$src/notes.md" ] && cp "$src/notes.md" "$out/"
+out=seeded/$id-$name; mkdir -p "$out"; cp "$src/patch.diff" "$src/demo.py" "$out/"; [ -f "$src/notes.md" ] && cp "$src/notes.md" "$out/"
 res=""
 for c in "$id" "$@"; do
   pf="/verif/$out/patch.diff"; [ -f "/verif/$out/patch-rebased.diff" ] && pf="/verif/$out/patch-rebased.diff"
@@ -22,10 +23,10 @@ for c in "$id" "$@"; do
   [ -z "$rc" ] && rc="patch-failed"
   res="$res $c:rc=$rc:$bucket"
 done
-echo "$id/$k tests=[$tests] demo_with=$with demo_without=$without checks:$res"
-/venv/bin/python - "$id" "$k" "$tests" "$with" "$without" "$res" <<'PY'
+echo "$id/$name tests=[$tests] demo_with=$with demo_without=$without checks:$res"
+/venv/bin/python - "$id" "$name" "$tests" "$with" "$without" "$res" "$(git -C $wt log --format=%h -1)" <<'PY'
 import json, sys, os
-id_, k, tests, w, wo, res = sys.argv[1:7]
+id_, k, tests, w, wo, res, base = sys.argv[1:8]
 out = "/verif/seeded/%s-%s" % (id_, k)
 notes = open(out + "/notes.md").read() if os.path.exists(out + "/notes.md") else ""
 checks = {}
@@ -33,7 +34,7 @@ for item in res.split():
     c, rc, bucket = (item.split(":", 2) + ["", ""])[:3]
     checks[c] = {"quick_exit": rc.replace("rc=", ""), "first_bucket": bucket}
 meta = {"property": id_, "source": "independent sub-agent given only the property text and its own scratch worktree",
-        "base_commit": "edc269e (the /repo HEAD when the worktrees were created; later fix: commits touch other lines)",
+        "base_commit": base + " (the /repo HEAD when the scratch worktree was created)",
         "what_it_needs_to_manifest": notes.strip()[:1500],
         "confirmed": {"suite_with_change": tests, "demo_exit_with_change": int(w), "demo_exit_without_change": int(wo),
                       "how": "git apply in the scratch worktree /tmp/wt/%s; pytest -q -p no:cacheprovider; demo.py with PYTHONPATH=<worktree>/lib; git checkout -- .; demo.py again" % id_},
